@@ -243,6 +243,18 @@ func runC12(ch *Choices, cfg *RunCfg) (o *Outcome) {
 	nin := ch.Range(1, 4, "ninputs")
 	sh := &c12Shared{}
 	sh.tm, sh.nm = copyMaps()
+	javaNames := ch.Intn(4, "maps.javanames") == 1
+	if javaNames {
+		sh.tm, sh.nm, _ = VariantMaps(ch)
+		o.Probes["shared maps with Java-style list / class names"]++
+	}
+	tmStart, nmStart := map[string]reflect.Type{}, map[string]string{}
+	for k, v := range sh.tm {
+		tmStart[k] = v
+	}
+	for k, v := range sh.nm {
+		nmStart[k] = v
+	}
 	oddMap := ch.Intn(5, "tm.odd") == 1
 	if oddMap {
 		// a legal but unusual registration: some classes registered through a pointer type (RegisterVal(k, &T{}))
@@ -432,7 +444,7 @@ func runC12(ch *Choices, cfg *RunCfg) (o *Outcome) {
 	// (over pristine copies of the maps as they were before the concurrent phase)
 	resetClock(0)
 	soloShared := &c12Shared{inputs: sh.inputs, foreign: sh.foreign}
-	soloShared.tm, soloShared.nm = copyMaps()
+	soloShared.tm, soloShared.nm = tmStart, nmStart
 	if oddMap {
 		for k, t := range sh.tm0 {
 			soloShared.tm[k] = t
